@@ -57,7 +57,7 @@ def run(chk):
                 cgp2 = gp0.condition(jnp.asarray(y), xq_, diag=jnp.asarray(0.35)).gp
                 procs.append(("conditioned at new inputs", cgp2, np.asarray(cgp2.loc), np.linalg.cholesky(np.asarray(cgp2.covariance))))
                 for pname, gp, mvec, Lt in procs:
-                    for si, shp in enumerate(shapes):
+                    for si, shp in enumerate(shapes + [(len(mvec) + 2,)]):      # the last one: more draws than points (a wide N x M array of normals)
                         key = jax.random.PRNGKey(100 * ci + si)
                         info = dict(kernel=kname, noise=nname, mean=mname, n=n, solver=sname, process=pname, shape=str(shp))
                         hist[f"{sname}/{pname}"] = hist.get(f"{sname}/{pname}", 0) + 1
@@ -86,7 +86,7 @@ def run(chk):
                             expect.append((info, s1.reshape(c, n) if shp is not None else s1.reshape(1, n)))
                         distinct.add((sname, pname, str(shp), kname, n))
                 # triangular product and solve are mutually inverse on vectors, matrices, higher rank
-                for tail in ([(), (2,), (1,), (2, 2)] if sname == "quasisep" else [(), (2,), (1,)]):   # the property claims vectors and matrices
+                for tail in ([(), (2,), (1,), (2, 2), (n + 3,)] if sname == "quasisep" else [(), (2,), (1,), (n + 3,)]):   # vectors and matrices, also wider than tall
                     v = rng.normal(size=(n,) + tail)
                     a = np.asarray(gp0.solver.solve_triangular(gp0.solver.dot_triangular(jnp.asarray(v))))
                     b = np.asarray(gp0.solver.dot_triangular(gp0.solver.solve_triangular(jnp.asarray(v))))
